@@ -144,4 +144,148 @@ world_frame guardWithdraw : (guardWithdraw w g p) ~ w keeps procs res pools bufs
 end
 
 /-! ### process bookkeeping -/
+
+section
+variable (w : World) (p : Pid) (a : Await)
+world_frame addAwait : (addAwait w p a) ~ w keeps ev evWaiters guards res pools bufs oqs pqs conds flags gvars now np
+  by (unfold addAwait; simp)
+proc_frame addAwait : (addAwait w p a) ~ w keeps prio status waiters held blocked pc script vars exitVal
+  by (unfold addAwait; apply modProc_field; intro; rfl)
+world_frame removeAwait : (removeAwait w p a).1 ~ w keeps ev evWaiters guards res pools bufs oqs pqs conds flags gvars now np
+  by (unfold removeAwait; simp)
+proc_frame removeAwait : (removeAwait w p a).1 ~ w keeps prio status waiters held blocked pc script vars exitVal
+  by (unfold removeAwait; apply modProc_field; intro; rfl)
+end
+
+section
+variable (w : World) (p : Pid) (isKind : Await → Bool)
+world_frame removeAwaitKind : (removeAwaitKind w p isKind).1 ~ w keeps ev evWaiters guards res pools bufs oqs pqs conds flags gvars now np
+  by (unfold removeAwaitKind; simp)
+proc_frame removeAwaitKind : (removeAwaitKind w p isKind).1 ~ w keeps prio status waiters held blocked pc script vars exitVal
+  by (unfold removeAwaitKind; apply modProc_field; intro; rfl)
+end
+
+section
+variable (w : World) (p : Pid) (h : HoldRef)
+world_frame removeHeld : (removeHeld w p h).1 ~ w keeps ev evWaiters guards res pools bufs oqs pqs conds flags gvars now np
+  by (unfold removeHeld; simp)
+proc_frame removeHeld : (removeHeld w p h).1 ~ w keeps prio status awaits waiters blocked pc script vars exitVal
+  by (unfold removeHeld; apply modProc_field; intro; rfl)
+end
+
+section
+variable (w : World) (p : Pid) (f : Frame)
+world_frame block : (block w p f).1 ~ w keeps ev evWaiters guards res pools bufs oqs pqs conds flags gvars now np
+  by (unfold block; simp)
+proc_frame block : (block w p f).1 ~ w keeps prio status awaits waiters held pc script vars exitVal
+  by (unfold block; apply modProc_field; intro; rfl)
+end
+
+section
+variable (w : World) (p : Pid) (v h : Nat)
+world_frame setVar : (setVar w p v h) ~ w keeps ev evWaiters guards res pools bufs oqs pqs conds flags now np
+  by (unfold setVar; split <;> first | rfl | simp)
+proc_frame setVar : (setVar w p v h) ~ w keeps prio status awaits waiters held blocked pc script exitVal
+  by (unfold setVar; split <;> first | rfl | (apply modProc_field; intro; rfl))
+end
+
+/-! ### timers -/
+
+section
+variable (w : World) (p : Pid) (d sig : Int)
+theorem timerAdd_fst : (timerAdd w p d sig).1 =
+    addAwait (sched w aTime (p + 1) sig (w.now + d) (w.proc p).prio).1 p
+      (.time (sched w aTime (p + 1) sig (w.now + d) (w.proc p).prio).2) := rfl
+theorem timerAdd_snd : (timerAdd w p d sig).2 = (sched w aTime (p + 1) sig (w.now + d) (w.proc p).prio).2 := rfl
+world_frame timerAdd : (timerAdd w p d sig).1 ~ w keeps evWaiters guards res pools bufs oqs pqs conds flags gvars now np
+  by (rw [timerAdd_fst]; simp)
+proc_frame timerAdd : (timerAdd w p d sig).1 ~ w keeps prio status waiters held blocked pc script vars exitVal
+  by (rw [timerAdd_fst]; simp)
+end
+
+section
+variable (w : World) (p : Pid) (h : Nat)
+theorem timerCancel_fst : (timerCancel w p h).1 = (evCancel (removeAwait w p (.time h)).1 h).1 := rfl
+world_frame timerCancel : (timerCancel w p h).1 ~ w keeps guards res pools bufs oqs pqs conds flags gvars now np
+  by (rw [timerCancel_fst]; simp)
+proc_frame timerCancel : (timerCancel w p h).1 ~ w keeps prio status waiters held blocked pc script vars exitVal
+  by (rw [timerCancel_fst]; simp)
+end
+
+section
+variable (w : World) (p : Pid)
+world_frame timersClear : (timersClear w p) ~ w keeps guards res pools bufs oqs pqs conds flags gvars now np
+  by (unfold timersClear; zeta; fold_world; frame_close)
+proc_frame timersClear : (timersClear w p) ~ w keeps prio status waiters held blocked pc script vars exitVal
+  by (unfold timersClear; zeta; fold_proc; apply modProc_field; intro; rfl)
+end
+
+/-! ### ending a process -/
+
+section
+variable (w : World) (p : Pid)
+world_frame cancelAwaiteds : (cancelAwaiteds w p) ~ w keeps res pools bufs oqs pqs conds flags gvars now np
+  by (unfold cancelAwaiteds; zeta; simp only [cancelAllFor_res, cancelAllFor_pools, cancelAllFor_bufs,
+      cancelAllFor_oqs, cancelAllFor_pqs, cancelAllFor_conds, cancelAllFor_flags, cancelAllFor_gvars, cancelAllFor_now,
+      cancelAllFor_np]; fold_world; frame_close)
+proc_frame cancelAwaiteds : (cancelAwaiteds w p) ~ w keeps prio status held blocked pc script vars exitVal
+  by (unfold cancelAwaiteds; zeta; simp only [cancelAllFor_proc]; fold_proc; apply modProc_field; intro; rfl)
+end
+
+section
+variable (w : World) (p : Pid) (sig : Int)
+world_frame wakeWaiters : (wakeWaiters w p sig) ~ w keeps evWaiters guards res pools bufs oqs pqs conds flags gvars now np
+  by (unfold wakeWaiters; zeta; fold_world; frame_close)
+proc_frame wakeWaiters : (wakeWaiters w p sig) ~ w keeps prio status awaits held blocked pc script vars exitVal
+  by (unfold wakeWaiters; zeta; fold_proc; apply modProc_field; intro; rfl)
+end
+
+section
+variable (w : World) (pl : Nat) (p : Pid)
+world_frame poolDropHolder : (poolDropHolder w pl p) ~ w keeps evWaiters procs res bufs oqs pqs conds flags gvars now
+  by (unfold poolDropHolder; splits_simp)
+end
+
+section
+variable (w : World) (p : Pid)
+world_frame dropResources : (dropResources w p) ~ w keeps evWaiters bufs oqs pqs conds flags gvars now np
+  by (unfold dropResources; zeta; fold_world; frame_close)
+proc_frame dropResources : (dropResources w p) ~ w keeps prio status awaits waiters blocked pc script vars exitVal
+  by (unfold dropResources; zeta; fold_proc; apply modProc_field; intro; rfl)
+end
+
+section
+variable (w : World) (p : Pid) (val : Int) (stopped : Bool)
+world_frame finishProc : (finishProc w p val stopped) ~ w keeps bufs oqs pqs conds flags gvars now np
+  by (unfold finishProc; zeta; frame_close)
+proc_frame finishProc : (finishProc w p val stopped) ~ w keeps prio pc script vars
+  by (unfold finishProc; zeta; frame_close)
+end
+
+/-! ### guard wait prologue / epilogue, resources, pools -/
+
+section
+variable (w : World) (g : Nat) (p : Pid) (d : Demand)
+world_frame guardWaitEnter : (guardWaitEnter w g p d) ~ w keeps ev evWaiters res pools bufs oqs pqs conds flags gvars now np
+  by (unfold guardWaitEnter; splits_simp)
+proc_frame guardWaitEnter : (guardWaitEnter w g p d) ~ w keeps prio status waiters held blocked pc script vars exitVal
+  by (unfold guardWaitEnter; splits_simp)
+end
+
+section
+variable (w : World) (g : Nat) (p : Pid) (sig : Int)
+world_frame guardWaitLeave : (guardWaitLeave w g p sig) ~ w keeps res pools bufs oqs pqs conds flags gvars now np
+  by (unfold guardWaitLeave; zeta; frame_close)
+proc_frame guardWaitLeave : (guardWaitLeave w g p sig) ~ w keeps prio status waiters held blocked pc script vars exitVal
+  by (unfold guardWaitLeave; zeta; frame_close)
+end
+
+section
+variable (w : World) (r : Nat) (p : Pid)
+world_frame grab : (grab w r p) ~ w keeps ev evWaiters guards pools bufs oqs pqs conds flags gvars now np
+  by (unfold grab; zeta; frame_close)
+proc_frame grab : (grab w r p) ~ w keeps prio status awaits waiters blocked pc script vars exitVal
+  by (unfold grab; zeta; frame_close)
+end
+
 end CimbaModel.Sim
